@@ -72,7 +72,15 @@ def build_case(u):
         steps.append({"s": si, "call": call, "action": action, "p": u.bits(3)})
     kw = {}
     if mode != "nb":
-        kw = {"allow_bulk": u.bool(), "max_repetitions": u.choice([1, 5, 20, 100])}
+        # every session option is either given or left to its documented default (allow_bulk=True, max_repetitions=20,
+        # version: v2c without a user, v3 with one)
+        kw = {}
+        if u.bool():
+            kw["allow_bulk"] = u.bool()
+        if u.bool():
+            kw["max_repetitions"] = u.choice([1, 5, 20, 100])
+        if u.bool():
+            kw["_omit_version"] = True
     return {"mode": mode, "cfgs": cfgs, "steps": steps, "kw": kw}
 
 
